@@ -310,11 +310,11 @@ def error_case(draw):
 
 def plan(tier, seed):
     jobs = []
-    n = scaled(3200 if tier == "quick" else 50000)
+    n = scaled(12800 if tier == "quick" else 160000)
     shards = 16 if tier == "quick" else 64
     for k in range(shards):
         jobs.append({"sub": "cond", "seed": seed, "shard": k, "n": max(1, n // shards), "cost": 10})
-    ne = scaled(480 if tier == "quick" else 8000)
+    ne = scaled(1600 if tier == "quick" else 16000)
     for k in range(4 if tier == "quick" else 16):
         jobs.append({"sub": "errors", "seed": seed, "shard": k, "salt": 3, "n": max(1, ne // (4 if tier == "quick" else 16)), "cost": 2})
     return jobs
